@@ -2842,7 +2842,7 @@ int errBoundMode, double absErr_Bound, double relBoundRatio, double pwRelBoundRa
 	float nearZero = 0.0;
 	float min = 0;
 	int accelerate_configured = confparams_cpr->accelerate_pw_rel_compression; //restored on return: the setting belongs to the configuration, not to this call
-	if(pwRelBoundRatio < 0.000009999)
+	if(pwRelBoundRatio < 0.000009999 || confparams_cpr->maxRangeRadius > 32768) //the accelerated kernels index tables of at most 65536 intervals: such a call takes the other path as a whole (range scan, kernel and the flag in the stream)
 		confparams_cpr->accelerate_pw_rel_compression = 0;
 	if(confparams_cpr->errorBoundMode == PW_REL && confparams_cpr->accelerate_pw_rel_compression)
 	{
